@@ -666,6 +666,9 @@ struct IMachine
                 o.result = "w=" + std::to_string(w) + " slots=" + std::to_string(slots >= N ? N : slots);
                 o.tag(("w" + std::to_string(w)).c_str());
                 o.tag(("slots" + std::to_string(slots)).c_str());
+                // the contract on element destructors (notes, `dtor_throw_breaks_invariant`): the container's own
+                // destructor is noexcept, so an exception leaving ~T() inside it ends in std::terminate
+                o.tag(std::is_nothrow_destructible_v<Vec> ? "dtor-noexcept" : "dtor-may-throw");
                 if (!counter_fits(w, N))
                     o.fail("m_size has " + std::to_string(w) + " bits: it cannot hold the sizes 0.." + std::to_string(N));
                 if (slots < N) o.fail("the storage has " + std::to_string(slots) + " slots, N=" + std::to_string(N));
